@@ -355,10 +355,22 @@ func checkC07(c *Ctx) {
 				for _, l := range findDeep(f, shortIs(what), 2) {
 					n++
 					tgt := l.site()
-					early, w := reach(f, nil, isInstr(tgt), inSet(trackSites), nil)
+					ff := f
+					sites := trackSites
+					if l.in != f {
+						// probe and tracking call moved into the same helper together: decide the order there
+						local := map[ssa.Instruction]bool{}
+						for _, ci := range callsIn(l.in, shortIs("TrackRegistration", "TrackRegIfNotExists")) {
+							local[ci.(ssa.Instruction)] = true
+						}
+						if len(local) > 0 {
+							ff, sites, tgt = l.in, local, l.call
+						}
+					}
+					early, w := reach(ff, nil, isInstr(tgt), inSet(sites), nil)
 					if early {
 						r.Bad("C07.12", "ingestRegistration: "+what+" reachable before the delivery is tracked", tgt.Pos(), fnName(f),
-							"the registration is not in the table while its probe is outstanding: a second delivery of the same registration is not recognised as a duplicate, runs its own probe and is shared with the peers a second time", r.blockPath(f, w)...)
+							"the registration is not in the table while its probe is outstanding: a second delivery of the same registration is not recognised as a duplicate, runs its own probe and is shared with the peers a second time", r.blockPath(ff, w)...)
 					} else {
 						r.OK("C07.12", "ingestRegistration: tracked before "+what, tgt.Pos(), "must-pass")
 					}
